@@ -253,6 +253,176 @@ def gen_xref_histories():
     return out
 
 
+# ----------------------------------------------------------------------------------------------
+# the real language server process (crates/samlang-cli/src/main.rs — linked into no harness):
+# `samlang-cli lsp` over stdio, via builder-C10's JSON-RPC client (vlib/c10.py, used read-only)
+
+WEIRD_URIS = ["file:///scratch/c11-not-in-the-project/Elsewhere.sam", "file:///x", "file:///", "file://",
+              "untitled:Untitled-1", "file:///scratch/c11-not-in-the-project/notes.txt", "https://example.com/a.sam",
+              "file:///tmp/%E6%97%A5%E6%9C%AC.sam"]
+REQUESTS = ["hover", "definition", "references", "signatureHelp", "completion", "codeAction", "rename",
+            "formatting", "foldingRange"]
+
+
+def _lsp_positions(text, cap):
+    ps, lines = [], text.split("\n")
+    for l, line in enumerate(lines):
+        prev = " "
+        for c, ch in enumerate(line):
+            if (ch.isalnum() or ch == "_") != (prev.isalnum() or prev == "_"):
+                ps.append((l, c))
+            prev = ch
+        ps.append((l, len(line)))
+    ps = ps[:: max(1, len(ps) // cap)] if len(ps) > cap else ps
+    return ps + [(len(lines) + 3, 0), (0, 100000), (4294967295, 4294967295)]
+
+
+def _lsp_request(lsp, kind, uri, pos):
+    td = {"textDocument": {"uri": uri}}
+    p = {"line": pos[0], "character": pos[1]}
+    if kind in ("hover", "definition", "signatureHelp", "completion"):
+        params = dict(td, position=p)
+    elif kind == "references":
+        params = dict(td, position=p, context={"includeDeclaration": True})
+    elif kind == "codeAction":
+        params = dict(td, range={"start": p, "end": p}, context={"diagnostics": []})
+    elif kind == "rename":
+        params = dict(td, position=p, newName="renamedVariableWithLongName")
+    elif kind == "formatting":
+        params = dict(td, options={"tabSize": 2, "insertSpaces": True})
+    else:
+        params = td
+    lsp.send("textDocument/" + kind, params, request=True)
+    want = lsp.nid
+    while True:
+        m = lsp.read(60)
+        if m is None:
+            return None
+        if m.get("id") == want and "method" not in m:
+            return m
+
+
+def lsp_leg(ctx, nhist, nops, cap):
+    """Histories of notifications (change / create / rename / delete, also for documents that are not
+    modules of the project and for odd URIs) against the real server process; after every
+    notification every request kind at token-boundary and out-of-range positions of every document.
+    Every request must be answered (result, null or a JSON-RPC error) and the process must stay
+    alive. Returns stats; records a violation with the notification history + the fatal request."""
+    import shutil, tempfile
+    from . import c10
+    stats = {"histories": 0, "notifications": 0, "requests": 0, "error_responses": 0}
+    try:
+        binary = c10.build_cli()
+    except common.BuildError as e:
+        ctx.violation("samlang-cli (language server binary) no longer builds: " + e.what,
+                      {"broken": "cargo build -p samlang-cli", "log": e.log[-3000:]}, no_input=True)
+        return stats
+    os.makedirs("/scratch/c11-not-in-the-project", exist_ok=True)
+    open("/scratch/c11-not-in-the-project/Elsewhere.sam", "w").write("class X {}")
+    rng = ctx.rng.fork()
+    for hi in range(nhist):
+        if ctx.violations:
+            break
+        r = rng.fork()
+        root = tempfile.mkdtemp(prefix="c11-lsp-", dir=common.SCRATCH_ROOT)
+        trace = []
+        lsp = None
+        try:
+            os.makedirs(os.path.join(root, "src"))
+            open(os.path.join(root, "sconfig.json"), "w").write('{"sourceDirectory": "src"}')
+            lsp = c10.Lsp(binary, os.path.realpath(root))
+            files = {"Lib": _xref_lib(r.below(3)), "Main": _xref_main(r.below(4))}
+            if hi % 2 == 1:
+                t, cls = gen_module(r, "A", [], True)
+                files["A"] = t
+                files["lib.Util"] = gen_module(r, "lib.Util", [("A", cls)], True)[0]
+            for m, t in files.items():
+                os.makedirs(os.path.dirname(lsp.path(m)), exist_ok=True)
+                open(lsp.path(m), "w").write(t)
+            trace.append({"init": dict(files)})
+            alive = lsp.start() is not None
+
+            def sweep(after):
+                docs = [(lsp.uri(m), t) for m, t in sorted(files.items())] + [(u, "") for u in WEIRD_URIS[:3 + hi % 6]] \
+                    + [(lsp.uri("Zzz.Absent"), "")]
+                for uri, text in docs:
+                    for pos in _lsp_positions(text, cap):
+                        for kind in REQUESTS:
+                            if kind in ("formatting", "foldingRange") and pos != (0, 100000):
+                                continue
+                            stats["requests"] += 1
+                            ans = _lsp_request(lsp, kind, uri, pos)
+                            if ans is None:
+                                return {"after": after, "request": kind, "uri": uri, "position": list(pos),
+                                        "exit_code": lsp.p.poll()}
+                            if "error" in ans:
+                                stats["error_responses"] += 1
+                return None
+
+            fatal = None if alive else {"after": "initialize/initialized", "request": None, "exit_code": lsp.p.poll()}
+            if fatal is None:
+                fatal = sweep("start")
+            for _ in range(nops):
+                if fatal:
+                    break
+                op = r.weighted([("chg", 6), ("cre", 2), ("ren", 2), ("del", 2), ("chgweird", 1), ("delweird", 1), ("renweird", 1)])
+                names = sorted(files)
+                if op == "chg":
+                    m = r.pick(names + ["Main", "Fresh" + str(r.below(3))])
+                    t = r.pick([_xref_main(r.below(12)), _xref_lib(r.below(6)), gen_module(r, m, [], True)[0],
+                                files.get(m, "class X {}")[: r.range(0, 60)], "", "class"])
+                    files[m] = t
+                    note = ("textDocument/didChange", {"textDocument": {"uri": lsp.uri(m), "version": 1}, "contentChanges": [{"text": t}]})
+                elif op == "cre":
+                    m = r.pick(["New" + str(r.below(3)), "deep.er.Mod", "Lib"])
+                    t = gen_module(r, m, [], True)[0]
+                    os.makedirs(os.path.dirname(lsp.path(m)), exist_ok=True)
+                    open(lsp.path(m), "w").write(t)
+                    files[m] = t
+                    note = ("workspace/didCreateFiles", {"files": [{"uri": lsp.uri(m)}, {"uri": lsp.uri("Ghost.NotOnDisk")}]})
+                elif op == "ren" and names:
+                    a = r.pick(names); b = r.pick(["Lib", "lib.Util", "Moved" + str(r.below(3)), a])
+                    if os.path.exists(lsp.path(a)) and a != b:
+                        os.makedirs(os.path.dirname(lsp.path(b)), exist_ok=True)
+                        os.replace(lsp.path(a), lsp.path(b))
+                    files[b] = files.pop(a)
+                    note = ("workspace/didRenameFiles", {"files": [{"oldUri": lsp.uri(a), "newUri": lsp.uri(b)}]})
+                elif op == "del" and names:
+                    a = r.pick(names + ["Never.Existed"])
+                    if os.path.exists(lsp.path(a)):
+                        os.remove(lsp.path(a))
+                    files.pop(a, None)
+                    note = ("workspace/didDeleteFiles", {"files": [{"uri": lsp.uri(a)}]})
+                elif op == "chgweird":
+                    note = ("textDocument/didChange", {"textDocument": {"uri": r.pick(WEIRD_URIS), "version": 1}, "contentChanges": [{"text": "class W {}"}]})
+                elif op == "delweird":
+                    note = ("workspace/didDeleteFiles", {"files": [{"uri": r.pick(WEIRD_URIS)}, {"uri": "not a uri"}]})
+                elif op == "renweird" and names:
+                    a = r.pick(names)
+                    note = ("workspace/didRenameFiles", {"files": [{"oldUri": r.pick(WEIRD_URIS), "newUri": lsp.uri("FromOutside")},
+                                                                    {"oldUri": lsp.uri(a), "newUri": r.pick(WEIRD_URIS)}]})
+                else:
+                    continue
+                trace.append({"notify": note[0], "params": note[1]})
+                stats["notifications"] += 1
+                lsp.send(note[0], note[1])
+                if lsp.settle() is None:
+                    fatal = {"after": note[0], "request": None, "exit_code": lsp.p.poll()}
+                    break
+                fatal = sweep(note[0])
+            stats["histories"] += 1
+            if fatal:
+                ctx.violation("the language server process (samlang-cli lsp) died or stopped answering: after " + str(fatal.get("after")) +
+                              (f", request {fatal['request']} at {fatal.get('uri')} {fatal.get('position')}" if fatal.get("request") else "") +
+                              f" (exit code {fatal.get('exit_code')})",
+                              {"protocol": "lsp-stdio", "history": trace, "fatal": fatal})
+        finally:
+            if lsp is not None:
+                lsp.close()
+            shutil.rmtree(root, ignore_errors=True)
+    return stats
+
+
 def model_lines(lines, impl):
     out = []
     for l, a in zip(lines, impl):
@@ -430,7 +600,9 @@ def run(ctx):
                 break
             handle(job[0], job[1], job[2], pre)
             done += 1
+    lsp_stats = lsp_leg(ctx, ctx.scale(4, 40), ctx.scale(5, 10), ctx.scale(12, 40)) if not ctx.violations else {}
     ctx.cov.update({
+        "lsp_process_leg": lsp_stats,
         "evaluations": done, "distinct_nontrivial": nontrivial,
         "rule": "random histories of update(1-2 modules)/rename/remove/new over 6 module names with long (>15 byte, heap-allocated) identifiers in every identifier position, comments and string literals; valid / ill-typed / truncated contents importing each other; after EVERY operation all 10 query kinds (hover, definition, references, signature help, completion, code actions, rename x2, formatting, folding, error rendering) at every line/column of every module ever mentioned + out-of-range positions + an absent module. non-trivial = distinct history in which a real GC round marked modules and swept",
         "samples": samples, "traces_validated_against_impl": stats["ops"],
